@@ -48,6 +48,18 @@ directory under /dev/shm and three independent things are decided, each clause w
              independent writer / on the bytes written; the process-global export switches left UNTOUCHED must mean their
              documented defaults (DOCUMENTED_CONFIG); inspect.signature() is compared with the table (defaults.signature)
 
+  transcode  WHERE THE MESH COMES FROM: m1 = load(file of the independent writer, format A) is a mesh like any other, so saving
+             it to EVERY format B must be as lossless as for the API-built mesh of the same content: A x B matrix (7 x 7) on
+             the sub-family incl. the MIXED-DIMENSION volume specimens (cells + border / all / some facets + feature edges in one
+             file, the way geogram, medit, tetgen write a volume); file B judged by the independent reader and by the reload;
+             only what the API-built mesh of the same content does not show is reported (class ...:origin=A | any-file), and
+             for a variant of the origin file (every syntactic variant of the reference writer) only what the plain file of
+             the same origin does not show (class ...:origin=A[construct])                       -> mesh.save / mesh.load
+  history    SAVE HISTORIES ON ONE OBJECT: what save writes is a function of the mesh, so save(m, B1); save(m, B2) must write
+             for B2 what a fresh equal object gives (same bytes, or the same meaning for the independent reader: coordinates,
+             edge set, faces, cells, attributes); every ordered pair (B1, B2) of the 7 formats (thorough: every triple), on
+             objects built through the API and on objects loaded from an independent writer's file      -> mesh.save
+
 Binary STL is only ever loaded in a sacrificial forked child; a dead child is a `crash` fingerprint.
 """
 from __future__ import annotations
@@ -77,7 +89,17 @@ RULE = ("every mesh of the finite families (all-triples point cloud over an 11-v
         "the same mesh without attribute, plus the second generation of every clean case of a carrying format, plus the "
         "independent writer's files (xyz 1, obj 3, ASCII stl 1 attribute sets per host); defaults clause: the same 7 hosts x 7 "
         "formats x every call form of the table (save: 4 forms + 2 per owned element kind; load: 7 forms for the defaults + "
-        "5 (dim, raw) values x 4-6 forms) and x 3 switches left untouched / set to the documented value / flipped")
+        "5 (dim, raw) values x 4-6 forms) and x 3 switches left untouched / set to the documented value / flipped; "
+        "mixed-dimension family: 10 volume specimens whose description lists cells AND facets (all / border only / interface only / "
+        "some, rotated) AND feature edges (1-3 tetrahedra, 1-2 hexahedra, hexahedron + tetrahedron), member of every clause above; "
+        "transcode clause: every member of the sub-family x 7 origin formats (file of the independent writer: the plain variant and "
+        "one further syntactic variant selected by the member index [thorough: every variant]; STL: binary / ASCII) x 7 target "
+        "formats, one case = one (member, origin file, target) whose origin file loads right, each with a fresh load; history "
+        "clause: every member of the sub-family x {object built through the API, object loaded from the independent writer's file "
+        "of the text format selected by the member index [thorough: of every text format]} x every ordered pair (B1, B2) of the 7 "
+        "formats [thorough: + every ordered triple on API-built objects], one case = one (member, object origin, history); the same "
+        "49 pairs on the 7 attribute-carrying hosts x every well-known attribute set x 2 storages, each with user attributes (sparse "
+        "int / bool with unset elements, dense float pair) on vertices / edges / faces / cells")
 ASSUMPTIONS = [
     "the reference codecs in mc/c04_codecs.py (token-stream parsers and writers written from the public format "
     "descriptions, self-tested against each other and against the repository's tests/data files) are the trusted base",
@@ -140,6 +162,22 @@ ASSUMPTIONS = [
     "docstrings and mouette/config.py; two calls mean the same when both raise or both give the same class, coordinates (bit "
     "exact) and element lists, resp. the same file bytes (a fresh mesh is built for every call); the switches are read as the "
     "library left them at import in the worker process (every task of this driver restores them)",
+    "mixed-dimension files (cells + facets): mouette completes the faces from the cells on load (complete_faces_from_cells is "
+    "left at its default, derived data, C02), so of the loaded faces only this is asked: the faces the file lists come first, in "
+    "the file's order and vertex order, and every further face is (as a vertex set) a facet of a cell the file does not list, at "
+    "most once; when the file lists no face nothing is asked of the faces (as before)",
+    "transcode clause: coordinates from the float32-range alphabet (so that the STL target applies to every case); the expectation "
+    "for the target file is computed from the snapshot of the loaded object by the same rules as for any mesh, its declared edges "
+    "being the edges the origin file lists; judged only when the plain load of the origin file is right (else the read clauses "
+    "report it, counted xc_origin_load_wrong); the base line is the mesh built through the API from the same vertices / listed "
+    "edges / faces / cells saved to the same target: a failure with the same (phase, clause, kind) there is not the origin's; "
+    "when every origin format exercised for a member fails alike the class is origin=any-file",
+    "history clause: coordinates from the float32-range alphabet; the saves of one history go to different paths of a fresh "
+    "directory; two outcomes are the same when both raise the same exception class, both write no file, the bytes are identical, "
+    "or the independent reader finds the same coordinates (bit exact), edge set, face list, cell list and attributes in both "
+    "(STL: the same triangle soup); a history in which an earlier save raised is kept (class after_failed_save=...): a retry "
+    "must not succeed with something else; a triple is reported only when neither of its pairs fails alike; a failure of a "
+    "loaded object that an API-built object of the same task shows as well carries no origin",
     "when the independent reader finds mouette's file unsound the round trip of that same file is not reported a "
     "second time, and when mouette's reader already failed on the reference writer's file of a mesh its round trip "
     "is not reported either (same defect); the other clauses and the other meshes of the format are still checked",
@@ -158,12 +196,18 @@ BOUNDS = {
              "leaves, three disjoint paths) so that every position of an OBJ polyline record exists; carried clause: 7 hosts x "
              "7 formats x (3|6 attribute sets x (3 storages + 3 (obj: 4) switch deviations) + base lines) = 2073 saves + second "
              "generations + 11 x 7 reference files; defaults clause: 7 hosts x 7 formats x (4..10 save forms + 33 load forms + "
-             "3 switches x 3 settings)",
+             "3 switches x 3 settings); mixed-dimension family 10 members (in every clause; sub-family 271 members); transcode: 271 "
+             "members x 7 origins x <=2 file variants x 7 targets (~20000 cases, fresh load each); history: 271 members x 2 object "
+             "origins x 49 ordered pairs of formats (~26000 histories of 2 saves) + the 7 attribute-carrying hosts x every attribute set "
+             "(3|6) x {dense full, sparse with unset odd elements}, each with int / bool / float user attributes on every container, "
+             "x 49 pairs (API-built)",
     "thorough": "quick + graphs n=5 (1023); tri+quad complexes n=5 with <=5 faces (2612) x 2 listings x <=3 hard-edge "
                 "variants; every single face rotation / adjacent swap of the n=4 complexes; the 16 tet classes on 6 "
                 "vertices x 2 orientations; holey 3x3 grids; ignore + dim clauses on quick's sub-family + graphs n=4, both "
                 "listings of the n=4 complexes, the n=5 complexes (first listing, no declared edge), tet classes on 6 "
-                "vertices, holey grids; regen clause on that thorough sub-family",
+                "vertices, holey grids; regen clause on that thorough sub-family; transcode on the thorough sub-family (3195) x 7 "
+                "origins x every file variant (28 in all) x 7 targets; history on the thorough sub-family x 49 pairs x {API, rotating "
+                "text origin}, on quick's 271 members x every text origin (6) and x all 343 ordered triples (API-built)",
 }
 
 FORMATS = ["obj", "mesh", "geogram_ascii", "off", "tet", "xyz", "stl"]
@@ -281,6 +325,42 @@ def family(name, tier):
                     "C": [[4, 5, 6, 7, 8, 9, 10, 11], [0, 1, 2, 3, 4, 5, 6, 7]]})
         out.append({"name": "hex:hex+tet", "n": 12, "E": [], "F": [], "xyz": fl(cube + up),
                     "C": [[8, 9, 10, 11], [0, 1, 2, 3, 4, 5, 6, 7]]})
+    elif name == "mixed":            # volumes as the tools write them: the cells AND facets (border / all / some) AND feature edges
+        def facets(c):
+            if len(c) == 4:
+                return [[c[1], c[3], c[2]], [c[0], c[2], c[3]], [c[3], c[1], c[0]], [c[0], c[1], c[2]]]
+            return [[c[0], c[3], c[2], c[1]], [c[4], c[5], c[6], c[7]], [c[0], c[4], c[7], c[3]], [c[0], c[1], c[5], c[4]],
+                    [c[1], c[2], c[6], c[5]], [c[2], c[3], c[7], c[6]]]
+        def border(cells):
+            allf = [f for c in cells for f in facets(c)]
+            cnt = {}
+            for f in allf:
+                cnt[frozenset(f)] = cnt.get(frozenset(f), 0) + 1
+            return [f for f in allf if cnt[frozenset(f)] == 1], [f for f in allf if cnt[frozenset(f)] > 1][::2]
+        def sp(nm, cells, F, E=(), xyz=None):
+            d = {"name": "mixed:" + nm, "n": 1 + max(v for c in cells for v in c), "E": [list(e) for e in E], "F": [list(f) for f in F],
+                 "C": [list(c) for c in cells]}
+            if xyz:
+                d["xyz"] = xyz
+            out.append(d)
+        t1 = [[0, 1, 2, 3]]
+        t2 = [[0, 1, 2, 3], [0, 2, 1, 4]]
+        t3 = [[0, 1, 2, 3], [0, 2, 1, 4], [1, 2, 3, 5]]
+        sp("tet1:all-facets", t1, border(t1)[0])
+        sp("tet2:border", t2, border(t2)[0])
+        sp("tet2:border+edges", t2, border(t2)[0], E=[(3, 0), (0, 4)])
+        sp("tet2:interface-only", t2, border(t2)[1])
+        sp("tet2:some-border:rotated", t2, [f[1:] + f[:1] for f in border(t2)[0][1::2]], E=[(1, 2)])
+        sp("tet3:all-facets:cells-first-numbering", t3, border(t3)[1] + border(t3)[0])
+        sp("tet3:border:reversed", list(reversed(t3)), list(reversed(border(t3)[0])))
+        cube = [[0, 0, 0], [1, 0, 0], [1, 1, 0], [0, 1, 0], [0, 0, 1], [1, 0, 1], [1, 1, 1], [0, 1, 1]]
+        up = [[x, y, z + 1] for x, y, z in cube[4:]]
+        fl = lambda P: [[float(c) for c in p] for p in P]
+        h1 = [[0, 1, 2, 3, 4, 5, 6, 7]]
+        h2 = [[0, 1, 2, 3, 4, 5, 6, 7], [4, 5, 6, 7, 8, 9, 10, 11]]
+        sp("hex1:border", h1, border(h1)[0], xyz=fl(cube))
+        sp("hex2:border+edges", h2, border(h2)[0], E=[(0, 1), (5, 4)], xyz=fl(cube + up))
+        sp("hex+tet:some-facets", [[8, 9, 10, 11], [0, 1, 2, 3, 4, 5, 6, 7]], [[0, 3, 2, 1], [9, 11, 10]], xyz=fl(cube + up))
     elif name == "trails":           # polyline specimens whose edges decompose into 2 / 3 trails of three vertices
         def star(k):
             return [[0, leaf] if leaf % 2 else [leaf, 0] for leaf in range(1, k + 1)]
@@ -299,15 +379,16 @@ def family(name, tier):
         take("zoo")
         take("tet")
         take("hex")
+        take("mixed")
     else:
         raise ValueError(name)
     return out
 
 
-FAMILIES = {"quick": ["cloud", "graph", "trails", "surf", "zoo", "tet", "hex"],
-            "thorough": ["cloud", "graph", "trails", "surf", "listing", "zoo", "tet", "hex"]}
+FAMILIES = {"quick": ["cloud", "graph", "trails", "surf", "zoo", "tet", "hex", "mixed"],
+            "thorough": ["cloud", "graph", "trails", "surf", "listing", "zoo", "tet", "hex", "mixed"]}
 PINNED = {("quick", "cloud"): 4, ("quick", "graph"): 71, ("quick", "zoo"): 11, ("quick", "tet"): 54, ("quick", "hex"): 3,
-          ("quick", "trails"): 3, ("thorough", "trails"): 3,
+          ("quick", "trails"): 3, ("thorough", "trails"): 3, ("quick", "mixed"): 10, ("thorough", "mixed"): 10,
           ("thorough", "cloud"): 4, ("thorough", "graph"): 1094, ("thorough", "tet"): 86, ("thorough", "hex"): 3}
 IGN_KINDS = ("edges", "faces", "cells")
 DIMS = [None, 0, 1, 2, 3]
@@ -319,7 +400,7 @@ CLEAN_FLOOR = {"obj": ["points", "edges", "tri", "quad", "poly", "tet", "hex"], 
                "xyz": ["points", "edges", "tri", "tet"], "stl": ["tri", "quad", "tet"]}
 
 
-PINNED_SEL = {"quick": 261, "thorough": 3185}
+PINNED_SEL = {"quick": 271, "thorough": 3195}
 # (source top kind -> top kind left) transitions of the ignore clause that pass every clause on the unchanged tree, and the
 # relations of the dim clause every format can exercise (xyz holds points only: dim is never below its content)
 IGN_FLOOR = {"obj": ["faces->edges", "cells->edges", "cells->faces", "faces->points", "edges->points", "faces->faces"],
@@ -353,6 +434,12 @@ def tasks(tier):
     for lo in range(0, n, 2 * CHUNK[tier]):
         for fmt in FORMATS:
             out.append({"kind": "regen", "tier": tier, "fmt": fmt, "lo": lo, "hi": min(n, lo + 2 * CHUNK[tier])})
+    for lo in range(0, n, XC_CHUNK[tier]):
+        out.append({"kind": "xcode", "tier": tier, "lo": lo, "hi": min(n, lo + XC_CHUNK[tier])})
+    for lo in range(0, n, HIST_CHUNK[tier]):
+        out.append({"kind": "hist", "tier": tier, "lo": lo, "hi": min(n, lo + HIST_CHUNK[tier])})
+    for h in range(len(CARRY_HOSTS)):
+        out.append({"kind": "hist", "tier": tier, "host": h})
     out.append({"kind": "signature"})
     for fmt in FORMATS:
         out.append({"kind": "carried", "fmt": fmt})
@@ -388,6 +475,8 @@ def _build(M, spec, V):
         mesh = M.mesh.PointCloud(raw)
     if spec.get("carry"):
         _attach(mesh, spec["carry"])
+    if spec.get("user"):
+        _attach_user(mesh)
     return mesh
 
 
@@ -583,6 +672,39 @@ def _cmp_elems(got, want, per_arity):
         return None
     if got != want:
         return {"got": got[:12], "want": want[:12], "n_got": len(got), "n_want": len(want)}
+    return None
+
+
+def _cell_facet_sets(cells):
+    out = set()
+    for c in cells:
+        if len(c) == 4:
+            out |= {frozenset(c) - {v} for v in c}
+        elif len(c) == 8:
+            out |= {frozenset(c[i] for i in q) for q in ((0, 1, 2, 3), (4, 5, 6, 7), (0, 3, 7, 4), (0, 1, 5, 4), (1, 2, 6, 5), (2, 3, 7, 6))}
+    return out
+
+
+def _cmp_faces(got, want, cells, per_arity):
+    """faces of a loaded file against the faces the FILE lists. Without cells: identical. With cells the loader completes
+    the faces from the cells (derived data, C02): nothing is asked when the file lists no face; else the listed faces come
+    first, in the order and with the vertex order of the file, and every further face is a facet of a cell (as a vertex set)
+    that the file does not list, each at most once."""
+    if not cells:
+        return _cmp_elems(got, want, per_arity)
+    if not want:
+        return None
+    free = _cell_facet_sets(cells) - {frozenset(f) for f in want}
+    groups = [(_by_arity(got).get(k, []), w) for k, w in sorted(_by_arity(want).items())] if per_arity else [(got, want)]
+    if per_arity:
+        groups += [(g, []) for k, g in sorted(_by_arity(got).items()) if k not in _by_arity(want)]
+    for g, w in groups:
+        head, tail = g[:len(w)], g[len(w):]
+        if head != w:
+            return {"got": g[:12], "want_first": w[:12], "n_got": len(g), "n_listed_in_the_file": len(w)}
+        keys = [frozenset(f) for f in tail if all(isinstance(v, int) for v in f)]
+        if len(keys) != len(tail) or len(set(keys)) != len(keys) or not set(keys) <= free:
+            return {"got": g[:16], "listed_in_the_file": w[:12], "note": "a face after the listed ones is not an unlisted facet of a cell"}
     return None
 
 
@@ -1118,8 +1240,8 @@ def read_phase(ctx, spec, salt, fmt):
                 fail = ("vertices", "mismatch:coordinates", _first_diff(_hexes(got["V"]), _hexes(model["V"])))
             elif _cmp_elems(got["C"], model["C"], per):
                 fail = ("cells", "mismatch:cells", _cmp_elems(got["C"], model["C"], per))
-            elif twogons is None and (model["F"] or not model["C"]) and _cmp_elems(got["F"], model["F"], per):
-                fail = ("faces", "mismatch:faces", _cmp_elems(got["F"], model["F"], per))
+            elif twogons is None and _cmp_faces(got["F"], model["F"], model["C"], per):
+                fail = ("faces", "mismatch:faces", _cmp_faces(got["F"], model["F"], model["C"], per))
             elif _cmp_edges(got["E"], bounds):
                 fail = ("edges", "mismatch:edges", _cmp_edges(got["E"], bounds))
             elif got["cls"] not in wcls:
@@ -1216,8 +1338,8 @@ def _judge_text_load(got, model, fmt, wantE, wantcls):
         return ("vertices", "mismatch:coordinates", _first_diff(_hexes(got["V"]), _hexes(model["V"])))
     if _cmp_elems(got["C"], model["C"], per):
         return ("cells", "mismatch:cells", _cmp_elems(got["C"], model["C"], per))
-    if (model["F"] or not model["C"]) and _cmp_elems(got["F"], model["F"], per):
-        return ("faces", "mismatch:faces", _cmp_elems(got["F"], model["F"], per))
+    if _cmp_faces(got["F"], model["F"], model["C"], per):
+        return ("faces", "mismatch:faces", _cmp_faces(got["F"], model["F"], model["C"], per))
     if _cmp_edges(got["E"], (wantE, wantE)):
         return ("edges", "mismatch:edges", _cmp_edges(got["E"], (wantE, wantE)))
     return None
@@ -1973,6 +2095,23 @@ def _attach(mesh, carry):
             a[i] = _carry_row(label, i, arity)
 
 
+def _attach_user(mesh):
+    """user attributes of the three exportable types on every element container the mesh owns: a sparse int and a sparse bool
+    with every odd element left unset, a dense float pair (history clause: what later saves write must not depend on reads)"""
+    for cname in ("vertices", "edges", "faces", "cells"):
+        cont = getattr(mesh, cname, None)
+        if cont is None or len(cont) == 0:
+            continue
+        a = cont.create_attribute("u_label", int, 1)
+        b = cont.create_attribute("u_flag", bool, 1)
+        c = cont.create_attribute("u_w", float, 2, dense=True)
+        for i in range(len(cont)):
+            if i % 2 == 0:
+                a[i] = 7 + i
+                b[i] = True
+            c[i] = [0.5 * i, -1.0 - i]
+
+
 def _carry_sizes(snap):
     return {"vertices": len(snap["V"]), "faces": len(snap["F"]), "face_corners": sum(len(f) for f in snap["F"])}
 
@@ -2548,6 +2687,414 @@ def run_defaults(task, rep, tmp):
         rep.violation(subcheck, callee, kind, icls, detail)
 
 
+# ================================================================================================ origin x transcoding
+# WHERE THE SAVED MESH COMES FROM is a dimension of "every mesh": besides the meshes built through the API, the mesh
+# m1 = load(file of the independent writer, format A) is a mesh like any other, and saving it to EVERY format B must be as
+# lossless as saving the API-built mesh of the same content (A x B matrix). Only what NEEDS the origin is reported here.
+XC_CHUNK = {"quick": 8, "thorough": 32}
+def _violation_or_hold(rep, subcheck, callee, kind, icls, detail):
+    rep.violation(subcheck, callee, kind, icls, detail)
+
+
+TEXT_FORMATS = [f for f in FORMATS if f != "stl"]
+
+
+def _origin_model(spec, V, A):
+    """the content of `spec` within the vocabulary of format A, as the independent writer is given it"""
+    fok, cok = FACE_OK[A], CELL_OK.get(A, ())
+    return {"V": V, "attrs": {}, "E": [sorted(e) for e in spec["E"]] if A in EDGE_FORMATS else [],
+            "F": [f for f in spec["F"] if (len(f) == 3 if A == "stl" else fok is None or len(f) in fok)],
+            "C": [c for c in spec["C"] if len(c) in cok]}
+
+
+def _origin_variants(A, k, tier):
+    """variant 0 (the plain file) first; quick: + the variant the member index selects (a rotation); thorough: all"""
+    from mc import c04_codecs as K
+    n = 2 if A == "stl" else K.N_VARIANTS[A]
+    return list(range(n)) if tier == "thorough" else sorted({0, k % n})
+
+
+def _origin_tag(A, v):
+    from mc import c04_codecs as K
+    if A == "stl":
+        return None if v == 0 else "ascii"
+    return None if v == 0 else (K.VARIANT_TAG[A][v] or f"variant{v}")
+
+
+def _origin_blob(A, model, v):
+    from mc import c04_codecs as K
+    if A == "stl":
+        V32 = [[K.f32(c) for c in p] for p in model["V"]]
+        tris = [[V32[x] for x in f] for f in model["F"]]
+        return K.write_stl_binary(tris) if v == 0 else K.write_stl_ascii(tris).encode()
+    return K.WRITERS[A](model, v).encode()
+
+
+def _origin_load_fail(snap, model, A):
+    """None when the plain load of the origin file is right (else the read clause's business)"""
+    from mc import c04_codecs as K
+    if A == "stl":
+        V32 = [[K.f32(c) for c in p] for p in model["V"]]
+        want = sorted(_rot_min([tuple(V32[x]) for x in f]) for f in model["F"])
+        return _judge_stl_load(("ok", snap), want, "SurfaceMesh")
+    wcls, wantE = _content_expectation(model, A, True)
+    return _judge_text_load(snap, model, A, wantE, wcls)
+
+
+def _xc_produce(M, pathA, targets):
+    """for every target format: a FRESH load of the origin file and the save of the loaded object -> JSON-able"""
+    out = {}
+    for B, pB in targets:
+        o = call(M.mesh.load, pathA)
+        if not o.ok:
+            out[B] = {"stage": "load", "exc": o.exc, "msg": o.msg}
+            continue
+        s1 = snapshot(o.value)
+        o2 = call(M.mesh.save, o.value, pB)
+        out[B] = {"stage": "saved", "snap": s1} if o2.ok else {"stage": "save", "snap": s1, "exc": o2.exc, "msg": o2.msg}
+    return out
+
+
+def _xc_target(ctx, snap, declared, B, pB, res, fails, pending):
+    """judge ONE saved file of a mesh whose content is `snap` (declared edges `declared`): the independent reader on the
+    bytes, mouette on the reload (STL: deferred to the sacrificial child). Failures are appended to `fails` as
+    (phase, clause, callee, kind, detail); -> nothing"""
+    from mc import c04_codecs as K
+    M, rep = ctx.M, ctx.rep
+    exp = expectation(snap, {"E": declared}, B, {"id": "default"})
+    rep.transitions += 1
+    if res["stage"] == "save":
+        if B == "stl" and any(len(f) > 4 for f in snap["F"]):
+            rep.count("stl_polygon_rejected")
+            return
+        fails.append(("save", "accepts", "mouette.mesh.save", "raises:" + res["exc"], {"msg": res["msg"]}))
+        return
+    if not os.path.exists(pB):
+        if B == "stl" and not exp["F"]:
+            rep.count("stl_nothing_to_write")
+            return
+        fails.append(("save", "accepts", "mouette.mesh.save", "mismatch:no_file_written", {}))
+        return
+    if B != "stl":
+        with open(pB, "r", newline="") as f:
+            text = f.read()
+        _, wfails = _judge_written(rep, B, text, exp)
+        for w in wfails:
+            fails.append(("write", w[0], "mouette.mesh.save", w[1], {**w[2], "file2": text[:1500]}))
+        if not wfails:
+            rfail, got = _judge_reloaded(M, rep, pB, exp)
+            if rfail:
+                fails.append(("roundtrip", rfail[0], "mouette.mesh.load", rfail[1], {**rfail[2], "file2": text[:1500]}))
+        return
+    V32 = [[K.f32(c) for c in p] for p in exp["V"]]
+    want = list(_expected_soups(V32, exp["F"]))
+    with open(pB, "rb") as f:
+        data = f.read()
+    try:
+        soup = sorted(_rot_min(t) for t in K.parse_stl_binary(data))
+        rep.evaluations += 1
+        if soup not in want:
+            fails.append(("write", "faces", "mouette.mesh.save", "mismatch:triangle_soup",
+                          {"got": soup[:6], "want": want[0][:6], "n_got": len(soup), "n_want": len(want[0])}))
+            return
+    except K.RefParseError as e:
+        fails.append(("write", "wellformed", "mouette.mesh.save", "mismatch:malformed_file", {"reference_reader": str(e)}))
+        return
+
+    def later(result):
+        rfail = _stl_check_load(ctx, result, want, exp)
+        if rfail:
+            fails.append(("roundtrip", rfail[0], "mouette.mesh.load", rfail[1], {**rfail[2], "file_bytes": len(data)}))
+    pending.append((pB, later))
+
+
+def run_transcode(task, rep, tmp):
+    import mouette as M
+    tier = task["tier"]
+    specs = family("sel", tier)
+    pending = []            # deferred STL reloads: (path, continuation)
+    child_jobs = []         # STL origins: (pathA, targets, continuation)
+    records = []            # one per (member, origin, variant, target): dict with the list of failures (filled in later)
+    ctx = _Ctx(M, rep, tmp, tag="x", pending=pending, mode="transcode")
+    for k in range(task["lo"], task["hi"]):
+        spec = specs[k]
+        V = _vertices_of(spec, k, True)                      # float32-range alphabet: every target incl. STL applies
+        base = {}                                            # content key -> {B: failure list} of the API-built mesh
+        for A in FORMATS:
+            model = _origin_model(spec, V, A)
+            if A == "stl" and not model["F"]:
+                continue
+            for v in _origin_variants(A, k, tier):
+                pathA = ctx.path(A)
+                with open(pathA, "wb") as f:
+                    f.write(_origin_blob(A, model, v))
+                rep.states += 1; rep.traces += 1
+                targets = [(B, ctx.path(B)) for B in FORMATS]
+                small = {"mesh": spec["name"], "origin": {"format": A, "variant": v, "written_by": "the independent writer",
+                                                           "content": {a: (b if a != "V" or len(b) <= 12 else f"{len(b)} vertices") for a, b in model.items() if a != "attrs"}},
+                         "history": "m1 = load(origin file); save(m1, file2); load(file2)"}
+
+                def consume(out, A=A, v=v, model=model, targets=targets, small=small, k=k, base=base, spec=spec):
+                    for B, pB in targets:
+                        res = out[B]
+                        rep.flag(f"xc_ran:{A}->{B}")
+                        lf = ("loads",) if res["stage"] == "load" else _origin_load_fail(res["snap"], model, A)
+                        if lf:
+                            rep.count("xc_origin_load_wrong")          # the read clauses' business
+                            rep.flag(f"xc_origin_load_wrong:{A}:{_kinds(model)}:{lf[0]}")
+                            continue
+                        snap1 = res["snap"]
+                        rep.case((spec["name"], "transcode", A, v, B))
+                        rep.count("xc_cases")
+                        rep.flag(f"xc_variant:{A}:{v}")
+                        declared = model["E"]
+                        # the base line: the API-built mesh of the same content saved to B (cached per content)
+                        ckey = json.dumps([_hexes(snap1["V"]), declared, model["F"] if A != "stl" else snap1["F"], model["C"]])
+                        if (ckey, B) not in base:
+                            bf = base[(ckey, B)] = []
+                            bspec = {"name": spec["name"], "n": len(snap1["V"]), "E": declared,
+                                     "F": model["F"] if A != "stl" else snap1["F"], "C": model["C"]}
+                            ob = call(_build, M, bspec, snap1["V"])
+                            if ob.ok:
+                                pb = ctx.path(B)
+                                o2 = call(M.mesh.save, ob.value, pb)
+                                _xc_target(ctx, snapshot(ob.value), declared, B, pb,
+                                           {"stage": "saved"} if o2.ok else {"stage": "save", "exc": o2.exc, "msg": o2.msg}, bf, pending)
+                            else:
+                                bf.append(("build", "build", "-", "raises:" + ob.exc, {}))
+                        rec = {"k": k, "A": A, "v": v, "B": B, "kinds": _kinds(snap1), "small": small, "fails": [], "base": base[(ckey, B)],
+                               "mixed": bool(model["F"] and model["C"]),
+                               "m1": {"class": snap1["cls"], "E": snap1["E"][:16], "F": snap1["F"][:16], "C": snap1["C"][:8]}}
+                        records.append(rec)
+                        _xc_target(ctx, snap1, declared, B, pB, res, rec["fails"], pending)
+
+                if A == "stl":
+                    child_jobs.append((pathA, targets, consume))
+                else:
+                    consume(_xc_produce(M, pathA, targets))
+        if k % 17 == 3:
+            rep.sample({"mesh": spec["name"], "clause": "transcode", "origins": {A: _origin_variants(A, k, tier) for A in FORMATS}, "targets": FORMATS})
+        if not child_jobs and not pending:
+            for fn in os.listdir(tmp):
+                os.unlink(os.path.join(tmp, fn))
+    if child_jobs:
+        outs = _child_map([(p, t) for p, t, _ in child_jobs], lambda j: _xc_produce(M, j[0], j[1]), rep)
+        for (_, targets, consume), (st, out) in zip(child_jobs, outs):
+            if st != "ok":
+                rep.count("xc_origin_load_wrong")            # a dead child on an independent STL file: the read clause's
+                continue
+            consume(out)
+    if pending:
+        results = stl_load_many(M, [p for p, _ in pending], rep)
+        for (_, later), res in zip(pending, results):
+            later(res)
+    # ---- attribution: only what NEEDS the origin (not shown by the API-built mesh), and for a variant of the origin file
+    # only what the plain file of the same origin does not show; one class per (target, kinds, origin | any origin)
+    sig = lambda f: (f[0], f[1], f[3])
+    plain = {}              # (k, A, B) -> signatures of the plain origin file
+    groups = {}             # (k, B, signature) -> {A: (rec, failure)} over the plain origin files
+    exercised = {}          # (k, B) -> origins judged (plain files)
+    tagged = []
+    for rec in records:
+        needs = [f for f in rec["fails"] if sig(f) not in {sig(b) for b in rec["base"]}]
+        rep.count("xc_same_as_api_built", len(rec["fails"]) - len(needs))
+        rep.outcome(f"transcode:{rec['B']}", "+".join(sorted({f[1] for f in needs})) or "same")
+        if not rec["fails"]:
+            rep.count("xc_clean")
+            rep.flag(f"xc_clean:{rec['A']}->{rec['B']}")
+            if rec["mixed"]:
+                rep.flag(f"xc_clean_mixed:{rec['A']}->{rec['B']}")
+        if rec["v"] == 0:
+            plain[(rec["k"], rec["A"], rec["B"])] = {sig(f) for f in needs}
+            exercised.setdefault((rec["k"], rec["B"]), set()).add(rec["A"])
+            for f in needs:
+                groups.setdefault((rec["k"], rec["B"], sig(f)), {})[rec["A"]] = (rec, f)
+        else:
+            tagged.append((rec, needs))
+    def emit(rec, f, origin):
+        kinds = f[1] if f[1] in ("vertices", "edges") else rec["kinds"]
+        _violation_or_hold(rep, f"C04.transcode.{f[1]}", f[2], f[3], f"{rec['B']}:{kinds}:origin={origin}",
+                      {**rec["small"], "m1": rec["m1"], "target_format": rec["B"], "phase": f[0], **f[4]})
+    for (k, B, s), byA in sorted(groups.items(), key=lambda kv: (kv[0][0], kv[0][1], kv[0][2])):
+        if len(exercised[(k, B)]) > 1 and set(byA) == exercised[(k, B)]:
+            rec, f = byA[sorted(byA)[0]]
+            emit(rec, f, "any-file")
+        else:
+            for A in sorted(byA):
+                emit(byA[A][0], byA[A][1], A)
+    for rec, needs in tagged:
+        for f in needs:
+            if sig(f) in plain.get((rec["k"], rec["A"], rec["B"]), ()):
+                rep.count("xc_same_as_plain_origin")
+            else:
+                emit(rec, f, f"{rec['A']}[{_origin_tag(rec['A'], rec['v'])}]")
+
+
+# ================================================================================================ save histories on one object
+# What save() writes is a function of the mesh: an earlier save of the SAME object (to any format) must not change what a
+# later save writes. Every ordered pair (B1, B2) of formats (thorough: every triple) on one object, compared with the file
+# a fresh equal object gives for B2 - by the meaning the independent reader finds when the bytes differ.
+HIST_CHUNK = {"quick": 8, "thorough": 16}
+
+
+def _save_outcome_of(M, m, path):
+    if os.path.exists(path):
+        os.unlink(path)
+    o = call(M.mesh.save, m, path)
+    if not o.ok:
+        return ["raises", o.exc]
+    if not os.path.exists(path):
+        return ["nofile"]
+    with open(path, "rb") as f:
+        return ["bytes", f.read()]
+
+
+def _file_meaning(fmt, out):
+    """what a save outcome means to the independent reader (a comparable value)"""
+    from mc import c04_codecs as K
+    if out[0] != "bytes":
+        return {"accepts": out}
+    try:
+        if fmt == "stl":
+            return {"accepts": "ok", "faces": sorted(_rot_min(t) for t in K.parse_stl_binary(out[1]))}
+        issues = []
+        text = out[1].decode("latin-1")
+        ref = K.parse_geogram(text, issues) if fmt == "geogram_ascii" else K.PARSERS[fmt](text)
+        attrs = {a: [b["type"], b["dim"], b["values"]] for a, b in sorted(ref["attrs"].items())}
+        if fmt == "obj":                 # the normal / texture coordinate every face corner refers to
+            r = K.parse_obj_refs(text)
+            attrs = {"vn": [[None if n is None else _hexrow(r["VN"][n]) for n in f] for f in r["FN"]],
+                     "vt": [[None if t is None else _hexrow(r["VT"][t]) for t in f] for f in r["FT"]]}
+        elif fmt == "xyz":
+            attrs = {"columns": [_hexrow(row) for row in K.parse_xyz_extra(text)]}
+        return {"accepts": "ok", "wellformed": [m for _, m in issues], "vertices": _hexes(ref["V"]),
+                "edges": sorted(_eset(ref["E"]), key=str), "faces": ref["F"], "cells": ref["C"], "attributes": attrs}
+    except K.RefParseError as e:
+        return {"accepts": "ok", "wellformed": "unreadable: " + str(e), "bytes": out[1].decode("latin-1")}
+
+
+def _meaning_diff(fmt, got, want):
+    """-> None | (clause, kind, detail): the first part in which two save outcomes differ for the independent reader"""
+    a, b = _file_meaning(fmt, got), _file_meaning(fmt, want)
+    for part in ("accepts", "wellformed", "vertices", "edges", "faces", "cells", "attributes", "bytes"):
+        if a.get(part) != b.get(part):
+            kind = "raises:" + got[1] if (part == "accepts" and got[0] == "raises") else \
+                "mismatch:malformed_file" if part in ("wellformed", "bytes") else "mismatch:" + part
+            short = lambda x: x if not isinstance(x, (list, str)) else x[:16]
+            return ("wellformed" if part == "bytes" else part, kind, {"after_the_history": short(a.get(part)), "fresh_object": short(b.get(part))})
+    return None
+
+
+def run_history(task, rep, tmp):
+    import mouette as M
+    tier = task["tier"]
+    specs = family("sel", tier)
+    quick_names = {s["name"] for s in family("sel", "quick")}
+    depth3 = tier == "thorough"
+    api_fail = set()               # (history, B2, clause, kind) failing for an API-built object of this task
+    items = []                     # (member index, spec, origins)
+    if "host" in task:
+        # objects that CARRY attributes (the well-known ones in every set / storage of the carried clause, plus user
+        # attributes of the three exportable types on every container): built through the API only
+        host = CARRY_HOSTS[task["host"]]
+        for cset in CARRY_SETS[host["host"]]:
+            for dense, pattern in CARRY_STORAGE[1:]:
+                items.append((3 * task["host"] + 1, dict(host, name=f"{host['name']}:{cset}:{'dense' if dense else 'sparse'}:{pattern}+user",
+                                                         carry={"set": cset, "dense": dense, "pattern": pattern}, user=True), ["api"]))
+        rep.flag("hist_attribute_hosts")
+    else:
+        for k in range(task["lo"], task["hi"]):
+            items.append((k, specs[k], ["api"] + (TEXT_FORMATS if (tier == "thorough" and specs[k]["name"] in quick_names)
+                                                   else [TEXT_FORMATS[k % len(TEXT_FORMATS)]])))
+    for k, spec, origins in items:
+        V = _vertices_of(spec, k, True)
+        if k % 17 == 3:
+            rep.sample({"mesh": spec["name"], "clause": "history", "object_origins": origins, "histories": "every ordered pair of " + " ".join(FORMATS)})
+        for origin in origins:
+            if origin == "api":
+                make = lambda: _build(M, spec, V)
+            else:
+                model = _origin_model(spec, V, origin)
+                pathA = os.path.join(tmp, f"h{k}_origin.{origin}")
+                with open(pathA, "wb") as f:
+                    f.write(_origin_blob(origin, model, 0))
+                o = call(_load_snap, M, pathA)
+                if not o.ok or _origin_load_fail(o.value, model, origin):
+                    rep.count("hist_origin_load_wrong")
+                    continue
+                make = lambda pathA=pathA: M.mesh.load(pathA)
+            rep.states += 1; rep.traces += 1
+            rep.flag("hist_origin:" + ("api" if origin == "api" else "loaded"))
+            o0 = call(make)
+            if not o0.ok:
+                rep.count("hist_make_failed")
+                continue
+            kinds = _kinds(snapshot(o0.value))
+            P = lambda i, B: os.path.join(tmp, f"h{k}_{i}.{B}")
+            fresh = {B: _save_outcome_of(M, make(), P(0, B)) for B in FORMATS}
+            rep.transitions += len(FORMATS)
+            found = {}               # (B_last, clause, kind) -> {history tuple: detail}
+            ran = {}                 # B_last -> histories run
+            hists = [(B1,) for B1 in FORMATS]
+            if depth3 and origin == "api" and spec["name"] in quick_names:
+                hists += [(B1, B2) for B1 in FORMATS for B2 in FORMATS]
+            for hist in hists:
+                for B2 in FORMATS:
+                    m = make()
+                    raised = [Bh for i, Bh in enumerate(hist) if _save_outcome_of(M, m, P(1 + i, Bh))[0] == "raises"]
+                    got = _save_outcome_of(M, m, P(1 + len(hist), B2))
+                    if raised:
+                        rep.flag("hist_after_failed_save")
+                    rep.transitions += 1 + len(hist); rep.evaluations += 1
+                    rep.case((spec["name"], "history", origin, hist, B2))
+                    rep.count("hist_cases")
+                    rep.flag(f"hist_ran:{hist[-1]}->{B2}")
+                    if len(hist) > 1:
+                        rep.flag("hist_depth3")
+                    ran.setdefault((len(hist), B2), []).append(hist)
+                    if got == fresh[B2]:
+                        rep.outcome("history:" + B2, "same bytes")
+                        rep.flag(f"hist_clean:{hist[-1]}->{B2}")
+                        continue
+                    d = _meaning_diff(B2, got, fresh[B2])
+                    rep.outcome("history:" + B2, d[0] if d else "same meaning")
+                    if d is None:
+                        rep.count("hist_bytes_differ_same_meaning")
+                        rep.flag(f"hist_clean:{hist[-1]}->{B2}")
+                        continue
+                    found.setdefault((len(hist), B2, d[0], d[1]), {})[hist] = {**d[2], "saves_of_the_history_that_raised": raised}
+            for (n, B2, clause, kind), byh in sorted(found.items()):
+                if n == 2:
+                    # a triple is reported only when neither of its pairs already fails alike
+                    byh = {h: d for h, d in byh.items() if not any((1, B2, clause, kind) in found and (hh,) in found[(1, B2, clause, kind)] for hh in h)}
+                    if not byh:
+                        continue
+                if origin == "api":
+                    api_fail |= {(h, B2, clause, kind) for h in byh}
+                else:
+                    byh = {h: d for h, d in byh.items() if (h, B2, clause, kind) not in api_fail}
+                    if not byh:
+                        rep.count("hist_same_as_api_built")
+                        continue
+                otag = "" if origin == "api" else f":origin={origin}"
+                kk = clause if clause in ("vertices", "edges") else kinds
+                small = {"mesh": spec["name"], "V": V if len(V) <= 12 else f"{len(V)} vertices", "E": spec["E"], "F": spec["F"], "C": spec["C"],
+                         "object": "built through the API" if origin == "api" else f"loaded from the independent writer's .{origin} file",
+                         **({"attributes": spec["carry"], "user_attributes": "u_label (int, sparse, odd unset), u_flag (bool, sparse, odd unset), u_w (float x 2, dense) on every container"} if spec.get("carry") else {}),
+                         "compared_with": f"save(fresh equal object, file.{B2})"}
+                word = lambda d: "after_failed_save" if d["saves_of_the_history_that_raised"] else "after_save"
+                if len(byh) == len(ran[(n, B2)]) and len(byh) > 1:
+                    h = sorted(byh)[0]
+                    _violation_or_hold(rep, f"C04.history.{clause}", "mouette.mesh.save", kind, f"{B2}:{kk}:after_save=any{otag}",
+                                  {**small, "history": [f"save(m, file.{b})" for b in h] + [f"save(m, file.{B2})"], **byh[h]})
+                else:
+                    for h in sorted(byh):
+                        _violation_or_hold(rep, f"C04.history.{clause}", "mouette.mesh.save", kind, f"{B2}:{kk}:{word(byh[h])}={'+'.join(h)}{otag}",
+                                      {**small, "history": [f"save(m, file.{b})" for b in h] + [f"save(m, file.{B2})"], **byh[h]})
+            for fn in os.listdir(tmp):
+                os.unlink(os.path.join(tmp, fn))
+
+
 # ================================================================================================ entry points
 def run_task(task, rep: Report):
     import mouette as M
@@ -2583,6 +3130,12 @@ def run_task(task, rep: Report):
             return
         if task["kind"] == "signature":
             run_signature(rep)
+            return
+        if task["kind"] == "xcode":
+            run_transcode(task, rep, tmp)
+            return
+        if task["kind"] == "hist":
+            run_history(task, rep, tmp)
             return
         if task["kind"] == "carried":
             run_carried(task, rep, tmp)
@@ -2752,6 +3305,29 @@ def finish(tier, rep: Report):
         for what in ("signature:config:", "defaults:config:", "defaults:config_matters:"):
             if what + name not in rep.flags:
                 fails.append(f"defaults clause: switch {name} never exercised ({what.rstrip(':')})")
+    # ---- origin x transcoding, save histories
+    if not rep.counters.get("xc_cases") or not rep.counters.get("xc_same_as_api_built"):
+        fails.append("transcode clause: no case ran / the attribution to the API-built mesh was never exercised")
+    for A in FORMATS:
+        for v in range(2 if A == "stl" else K.N_VARIANTS[A]):
+            if f"xc_variant:{A}:{v}" not in rep.flags:
+                fails.append(f"transcode clause: no origin file of format {A}, variant {v}, was loaded right and transcoded")
+        for B in FORMATS:
+            if f"xc_ran:{A}->{B}" not in rep.flags:
+                fails.append(f"transcode clause: {A} -> {B} never ran")
+            if f"xc_clean:{A}->{B}" not in rep.flags:
+                fails.append(f"transcode clause: no mesh loaded from a {A} file passed every clause when saved to {B}")
+            if A in ("mesh", "geogram_ascii") and f"xc_clean_mixed:{A}->{B}" not in rep.flags:
+                fails.append(f"transcode clause: no mixed-dimension {A} file (cells + facets) passed every clause when saved to {B}")
+            if f"hist_ran:{A}->{B}" not in rep.flags:
+                fails.append(f"history clause: save to {A} then to {B} on one object never ran")
+            if f"hist_clean:{A}->{B}" not in rep.flags:
+                fails.append(f"history clause: no object wrote the same {B} file after a save to {A}")
+    for what in ("hist_origin:api", "hist_origin:loaded", "hist_after_failed_save", "hist_attribute_hosts") + (("hist_depth3",) if tier == "thorough" else ()):
+        if what not in rep.flags:
+            fails.append("history clause: never exercised: " + what)
+    if not rep.counters.get("hist_cases"):
+        fails.append("history clause: no history ran")
     # the clauses can PASS on every element kind the unchanged tree handles (a guard that needs no defect to hold)
     for fmt, kinds in CLEAN_FLOOR.items():
         for k in kinds:
